@@ -18,7 +18,7 @@ for pid in ALL:
         'evidence_file': '/verif/evidence/%s.json' % pid,
         'replay_cmd_template': 'python3 vf/run.py --replay {path}',
         'engine': 'vf',
-        'level_claimed': {'category': 'exploration', 'text': c['level_text'], 'design_ref': c.get('design_ref', 'DESIGN.md section 4, ' + pid)},
+        'level_claimed': {'category': 'exploration', 'text': c['level_text'] + (' ' + c['level_addendum'] if c.get('level_addendum') else ''), 'design_ref': c.get('design_ref', 'DESIGN.md section 4, ' + pid)},
         'level_note': c['level_note'],
         'technique': c['technique'],
     })
